@@ -46,8 +46,10 @@ Definition sym : codec sblob :=
                            | BEnc _ v => if same_kind v cur then Some v else None
                            | _ => None
                            end;
-     c_body := fun es => if existsb (fun p => is_other (snd p)) es then None
-                         else Some (BBody (body_norm es));
+     (* the entries go through a Go map first (a later entry of the same name replaces the
+        earlier one); only what is left is marshalled, so only that can fail *)
+     c_body := fun es => let n := body_norm es in
+                         if existsb (fun p => is_other (snd p)) n then None else Some (BBody n);
      c_body_get := fun b n cur =>
         match b with
         | BBody l => match assoc_str n l with
